@@ -67,6 +67,7 @@ def run(ctx) -> None:
     r02_4(ctx)
     r02_5(ctx)
     r02_6(ctx)
+    r02_7(ctx)
     ctx.floor("guard_cells", 12)
     ctx.floor("aggregations", 15)
     ctx.floor("key_wrappers", 1)
@@ -527,6 +528,36 @@ def _projection_index(ctx, u, cfg, call, key, depth=0):
         if v is not None:
             return _projection_index(ctx, u, cfg, call, v, depth + 1)
     return None
+
+
+# --------------------------------------------------------------------------- R02.7
+def r02_7(ctx) -> None:
+    """dict(iterable, **kwargs): keyword arguments win over pairs of the iterable and come after them —
+    nothing from the iterable is stored after the keywords were merged."""
+    from asl.flow import find_path, pretty_path
+    ctx.rule("R02.7", "dict: keyword arguments are merged after (and therefore override) the pairs of the iterable")
+    u = ctx.inlined(ctx.unit("builtins.dict"))
+    cfg = cfg_of(u)
+    kw = u.node.args.kwarg.arg if u.node.args.kwarg else None
+    if kw is None:
+        ctx.ok("R02.7", u, "dict takes no keyword arguments")
+        return
+
+    def mentions_kw(e) -> bool:
+        return e is not None and any(isinstance(x, ast.Name) and x.id == kw for x in ast.walk(e))
+
+    merges = [n for n in cfg.nodes if not n.tag and (
+        (n.kind == "store" and mentions_kw(n.info.get("value")) and not isinstance(n.info.get("value"), ast.Name))
+        or (n.kind == "call" and any(mentions_kw(a) for a in list(n.ast.args) + [k.value for k in n.ast.keywords])))]
+    src = f"{u.short}:{u.param_names()[0]}"
+    pulls = [n for n in cfg.nodes if not n.tag and n.kind == "pull" and any(
+        a[0] in ("user", "iter", "scoped") for a in atoms_deep(ctx.vals.expr(u, n.info.get("iter"), n)))]
+    ctx.check(bool(merges), "R02.7", u, "dict", "keyword arguments are merged into the result")
+    for m in merges:
+        for p in pulls:
+            path = find_path(m, lambda x, p=p: x is p, edge_ok=lambda a, lab, b: lab not in ("e", "p"))
+            ctx.check(path is None, "R02.7", u, m, "no pair of the iterable is stored after the keyword arguments were merged "
+                      "(on a key collision the keyword wins, and keyword keys come last)", node=m, witness=pretty_path(path))
 
 
 # --------------------------------------------------------------------------- R02.6
